@@ -151,7 +151,11 @@ func (d *Decoder) readPayload() (payload []byte, n int, err error) {
 		if err != nil {
 			return nil, n, fmt.Errorf("error reading claimed uncompressed size varint: %w", err)
 		}
-		if claimedUncompressedSize <= 0 {
+		if claimedUncompressedSize < 0 {
+			// Only 0 marks an uncompressed packet, a negative size is never valid.
+			return nil, n, errs.NewSilentErr("claimed uncompressed size %d is negative", claimedUncompressedSize)
+		}
+		if claimedUncompressedSize == 0 {
 			if actualUncompressedSize := buf.Len(); actualUncompressedSize > d.compressionThreshold {
 				return nil, n, fmt.Errorf("actual uncompressed size %d is greater than threshold %d",
 					actualUncompressedSize, d.compressionThreshold)
@@ -230,6 +234,14 @@ func (d *Decoder) decompress(claimedUncompressedSize int, rd io.Reader) (decompr
 	decompressed = make([]byte, claimedUncompressedSize)
 	_, err = io.ReadFull(d.zrd, decompressed)
 	if err != nil {
+		return nil, fmt.Errorf("error decompressing payload: %w", err)
+	}
+	// The body must inflate to exactly the claimed size: the stream has to end here.
+	var probe [1]byte
+	if _, err = io.ReadFull(d.zrd, probe[:]); err == nil {
+		return nil, errs.NewSilentErr("compressed payload inflates to more than the claimed uncompressed size %d",
+			claimedUncompressedSize)
+	} else if err != io.EOF {
 		return nil, fmt.Errorf("error decompressing payload: %w", err)
 	}
 	return decompressed, d.zrd.Close()
